@@ -147,6 +147,7 @@ PROPS = {
     level_note=LN_RING + " Zero-copy / ogre_arc reservations are pool allocations (C13/C05 models).",
     lean=["C08"],
     scenarios=[ring("atomic", "rsv", 2000), ring("atomic", "rsv", 1000, profile="checked"),
+               ring("atomic", "rsv", 1000, extra=["origins=4294967288,0,4294967280,4294967264", "model32=1"], profile="checked", model_name="M1/32 Ring32"),
                dict(bin="ring", args=["kind=atomic", "sub=diff", "origins=0,4294967288,4294967280,4294967264"], runs=300, model=False, profile="checked", model_name="(differential)")] +
               [dict(bin="uni", args=[f"kind={k}", "sub=flow"], runs=300, model_name="M8 Wake", kinds=["invented", "duplicate", "rejected_delivered", "lost", "order", "panic"]) for k in ["matomic", "zatomic", "zfullsync"]],
     profiles=["release", "checked"],
@@ -155,11 +156,13 @@ PROPS = {
     assumptions=["producer-side calls are sequential while reservations are cancelled (the channel documents reverse-order cancellation)", "payloads without destructor"],
  ),
  "C15": dict(
-    level_text="Lean 4 proof that every decision the rings take from their wrapping u32 counters (admission, emptiness as a signed difference, slot index, length, CAS equality, lap reconstruction of index-based publish / cancel with its checked + and *) equals the decision model M1/M2 takes from free-running naturals, for counters of ANY magnitude inside the windows the ring invariant provides, and that no checked operation overflows (counterexample theorem: the pinned `enqueuer_tail - 1` does). Tied to the code: step-level replay from origins just below 2^32 (counters wrap during the run), differential replay of sequential histories from five origins in the release and the overflow-checking build.",
-    level_note="Arithmetic lemmas about Mutiny/Model/U32.lean (the expressions of the source, transcribed by hand) + ring invariant windows; BUFFER_SIZE a power of two enters as N | 2^32; fewer than 2^31 - N concurrent claimants.",
-    lean=["C15"],
+    level_text="Lean 4 proof of a REFINEMENT between two executable machines: Ring32 (model of AtomicMove computing on u32 residues with exactly the wrapping / signed / checked operations of the source) is, action for action and for runs of any length, the image modulo 2^32 of ring model M1 over free-running naturals, and never panics (c15_refinement; window hypotheses derived from a bound on the number of threads by a pigeonhole argument; index-based re-guess loops related at call level); plus: every decision the rings take from their wrapping u32 counters (admission, emptiness as a signed difference, slot index, length, CAS equality, lap reconstruction of index-based publish / cancel with its checked + and *) equals the decision model M1/M2 takes from free-running naturals, for counters of ANY magnitude inside the windows the ring invariant provides, and that no checked operation overflows (counterexample theorem: the pinned `enqueuer_tail - 1` does). Tied to the code: step-level replay from origins just below 2^32 (counters wrap during the run), differential replay of sequential histories from five origins in the release and the overflow-checking build.",
+    level_note="Ring32 and the arithmetic of Mutiny/Model/U32.lean are hand transcriptions of the source, tied to it by replaying the recorded traces of the real AtomicMove on Ring32 itself from origins around 2^32 (every hook register compared as it is); the refinement theorem excludes an exact multiple of 2^32 events flowing between the two loads of the emptiness re-check (hypothesis noABA); FullSyncMove: arithmetic lemmas + replay only; BUFFER_SIZE a power of two enters as N | 2^32; fewer than 2^31 - N concurrent claimants.",
+    lean=["C15", "C15_Machine"],
     scenarios=[ring(k, "diff", 300, extra=["origins=0,4294967288,4294967280,4294967272,4294967264"], model=False, profile=p) for k in ("atomic", "fullsync") for p in ("release", "checked")] +
               [ring(k, "mixed", 800, extra=["origins=4294967288,4294967280,0,4294967264"]) for k in ("atomic", "fullsync")] +
+              # the same real traces replayed on the u32 machine Ring32 itself (hook values compared as they are, index-based calls from every origin)
+              [ring("atomic", sub, 800, extra=["origins=4294967288,4294967280,0,4294967264,4294967272", "model32=1"], profile=p, model_name="M1/32 Ring32") for sub in ("mixed", "rsv") for p in ("release", "checked")] +
               [handles("atomic", 300)],
     profiles=["release", "checked"],
     rule="the same seeded history is replayed from sequence origins {0, 2^32-8, 2^32-16, 2^32-24, 2^32-32} (rounded to multiples of N) and every answer compared; NON-TRIVIAL if it contains index-based publish/cancel; plus scheduled concurrent runs from those origins replayed on the model",
